@@ -64,14 +64,14 @@ PROPS = {
         ],
     },
     'C02': {
-        'streams': ['grammar'],
+        'streams': ['grammar', 'readloop'],
         'shrink': {},
         'assumptions': [
             "the grammar is rfc_head (Spec/HttpGrammar.v): alphabetic method, RFC 3986 character classes per target form, token names, OWS, field values without CR/LF; Content-Length fields must be valid and agree (cl_consistent), otherwise RFC 9112 6.3 makes the head invalid",
         ],
     },
     'C03': {
-        'streams': ['prefix', 'readloop', 'clientread'],
+        'streams': ['prefix', 'readloop', 'clientread', 'segpair'],
         'shrink': {'prefix': 'hex'},
         'assumptions': [
             "error kinds other than 'incomplete' are one class (the server answers 400 to all of them)",
@@ -86,7 +86,7 @@ PROPS = {
         ],
     },
     'C06': {
-        'streams': ['body'],
+        'streams': ['body', 'clientread'],
         'shrink': {},
         'assumptions': [
             "std::io::BufReader (capacity 4096: refill only when empty, bypass for reads >= capacity on an empty buffer, read_exact, read_line = read_until + UTF-8 check) is modelled, not verified; pinned by this stream",
@@ -95,7 +95,7 @@ PROPS = {
         ],
     },
     'C10': {
-        'streams': ['conn10'],
+        'streams': ['conn10', 'modes10'],
         'shrink': {},
         'assumptions': [
             "the inbound TCP stream is a list of segments; a read returns at most one segment (the harness delivers a segment only when the server thread is blocked and has consumed the previous one)",
@@ -108,6 +108,7 @@ PROPS = {
         'assumptions': [
             "handlers are the harness application (respond / respond with close / Err / respond then Err / read body); the pre-routing hook answers or proceeds",
             "socket timeouts are not modelled",
+            "serve_epoll's own keep-alive decision (EpollJob::run) is tied by the modes09 stream: the same single-connection histories against serve, serve_threaded and serve_epoll on real listeners, time-paced",
         ],
     },
     'C05': {
